@@ -9,7 +9,8 @@ package main
 // file system; the same abstract tree is sent to the model. Compared: see Corr/PIPE.v.
 //
 // Domain restrictions of the generator (each is a stated scope limit of the model, design.d/PIPE.md):
-//   no patches / replacements / vars / components / configurations / helm / plugins,
+//   patches: only strategic-merge entries (pipe_patches.go; no JSON6902, no patchesStrategicMerge / patchesJson6902,
+//   no allowNameChange / allowKindChange), no replacements / vars / components / configurations / helm / plugins,
 //   generators with literal, env-file and file sources (all behaviours, generatorOptions, binaryData), no immutable;
 //   no `kind: List`, no empty documents, no anchors, no comments,
 //   no internal.config.kubernetes.io annotations in inputs, no ',' in names (PrevIds panic, C12 finding).
